@@ -3,6 +3,8 @@ structural hypotheses of binary_code_transform_sound and the resulting matrix-el
 import OFV.Proofs.C09Sum
 import OFV.Proofs.C09Bk3
 import OFV.Proofs.C09Parity
+import OFV.Proofs.C09Checksum
+import OFV.Proofs.C09Inter
 
 namespace OFV.C09
 open OFV.Model OFV.Model.C09 OFV.Spec.C09
@@ -176,5 +178,111 @@ theorem bct_parity_matrix' (n : Nat) (c : Code) (hc : parityCode n = .ok c) (h R
   obtain ⟨hnm, hst⟩ := parity_structure n c hc
   exact bct_sound_total c h R hst (fun v hl hb => parity_valid' n c hc v (by rw [hl, hnm]) hb) (by rw [hnm]; exact hwf) hR
     s out wq xq (by rw [hnm]; exact hs) (by rw [hnm]; exact ho) (by rw [hnm]; exact hw) (by rw [hnm]; exact hx)
+
+/-! ### interleaved and checksum codes -/
+
+theorem interleaved_structure (m : Nat) (c : Code) (h : interleavedCode m = .ok c) :
+    c.nm = m ∧ (c.dec.length = c.nm ∧ (∀ e ∈ c.dec, ∃ p, e = .poly p) ∧ (∀ e ∈ c.dec, ∀ t ∈ e.toPoly, t ≠ [])) := by
+  unfold interleavedCode at h
+  split at h
+  · cases h
+  · split at h
+    · cases h
+    · obtain ⟨ps, hps, _, _⟩ := linearizeDecoder_sound (transpose m (interleavedMat m))
+      simp only [hps, bind, Except.bind] at h
+      have hst := linear_code_structure _ _ _ _ _ _ hps h
+      obtain ⟨rfl, _, _⟩ := mk'_ok _ _ _ _ _ h
+      exact ⟨rfl, hst⟩
+
+theorem bct_interleaved_matrix' (hh : Nat) (c : Code) (hc : interleavedCode (2 * hh) = .ok c) (h R : Op)
+    (hwf : ∀ tc ∈ h, ∀ f ∈ tc.1, f.2 ≤ 1 ∧ f.1 < 2 * hh) (hR : binaryCodeTransform 0 h c = .ok R)
+    (s out wq xq : Nat) (hs : s < 2 ^ (2 * hh)) (ho : out < 2 ^ (2 * hh))
+    (hw : bitsOf wq = encFn c (occList s (2 * hh))) (hx : bitsOf xq = encFn c (occList out (2 * hh))) :
+    den .qubit R [wq] [xq] = melF h out s := by
+  obtain ⟨hnm, hst⟩ := interleaved_structure (2 * hh) c hc
+  exact bct_sound_total c h R hst (fun v _ hb => interleaved_valid' hh c hc v hb) (by rw [hnm]; exact hwf) hR
+    s out wq xq (by rw [hnm]; exact hs) (by rw [hnm]; exact ho) (by rw [hnm]; exact hw) (by rw [hnm]; exact hx)
+
+theorem allIn_ne (ms : List Nat) (start p : Poly) (hs : ∀ t ∈ start, t ≠ [])
+    (h : ms.foldlM allInStep start = .ok p) : ∀ t ∈ p, t ≠ [] := by
+  induction ms generalizing start with
+  | nil =>
+    simp only [List.foldlM_nil, pure, Except.pure, Except.ok.injEq] at h
+    subst h; exact hs
+  | cons m r ih =>
+    rw [List.foldlM_cons] at h
+    have hstep : allInStep start m = .ok (iadd start [[some m]]) := by
+      unfold allInStep; rw [ofString_var]; rfl
+    rw [hstep] at h
+    apply ih (iadd start [[some m]]) ?_ h
+    intro t ht
+    rcases mem_iadd start [[some m]] t ht with h1 | h1
+    · exact hs t h1
+    · simp at h1; rw [h1]; simp
+
+theorem checksum_structure (n : Nat) (odd : Bool) (c : Code) (h : checksumCode n odd = .ok c) :
+    c.nm = n ∧ (c.dec.length = c.nm ∧ (∀ e ∈ c.dec, ∃ p, e = .poly p) ∧ (∀ e ∈ c.dec, ∀ t ∈ e.toPoly, t ≠ [])) := by
+  unfold checksumCode at h
+  split at h
+  · cases h
+  · cases hd : decoderChecksum n odd with
+    | error e => simp [hd, bind, Except.bind] at h
+    | ok ps =>
+      simp only [hd, bind, Except.bind] at h
+      obtain ⟨rfl, hnm, _⟩ := mk'_ok _ _ _ _ _ h
+      have hne : ∀ p ∈ ps, ∀ t ∈ p, t ≠ [] := by
+        unfold decoderChecksum at hd
+        have hstart : checksumStart odd = .ok (if odd then [[none]] else []) := by cases odd <;> rfl
+        rw [hstart] at hd
+        simp only [bind, Except.bind] at hd
+        cases ha : (List.range (n - 1)).foldlM allInStep (if odd then [[none]] else []) with
+        | error e => simp [ha] at hd
+        | ok allIn =>
+          cases hl : linearizeDecoder (identity (n - 1)) with
+          | error e => simp [ha, hl] at hd
+          | ok djw =>
+            simp only [ha, hl, pure, Except.pure, Except.ok.injEq] at hd
+            subst hd
+            intro p hp
+            rcases List.mem_append.mp hp with hp | hp
+            · exact linearizeDecoder_ne _ _ hl p hp
+            · simp at hp; subst hp
+              apply allIn_ne _ _ _ ?_ ha
+              cases odd <;> simp
+      refine ⟨rfl, by simp [hnm], ?_, ?_⟩
+      · intro e he
+        simp only [List.mem_map] at he
+        obtain ⟨p, _, rfl⟩ := he
+        exact ⟨p, rfl⟩
+      · intro e he
+        simp only [List.mem_map] at he
+        obtain ⟨p, hp, rfl⟩ := he
+        exact hne p hp
+
+/-- `checksum_code(n, odd)`: for a Hamiltonian whose terms keep the parity of the particle number, the transform
+has the Spec matrix elements between the encoded states of the parity sector -/
+theorem bct_checksum_matrix' (n : Nat) (odd : Bool) (c : Code) (hc : checksumCode n odd = .ok c) (h R : Op)
+    (hwf : ∀ tc ∈ h, ∀ f ∈ tc.1, f.2 ≤ 1 ∧ f.1 < n) (hR : binaryCodeTransform 0 h c = .ok R)
+    (s out wq xq : Nat) (hs : s < 2 ^ n) (ho : out < 2 ^ n)
+    (hps : ((occList s n).sum % 2 == 1) = odd) (hpo : ((occList out n).sum % 2 == 1) = odd)
+    (hpres : ∀ tc ∈ h, ∀ k s', actFTerm tc.1 s = some (k, s') → ((occList s' n).sum % 2 == 1) = odd)
+    (hw : bitsOf wq = encFn c (occList s n)) (hx : bitsOf xq = encFn c (occList out n)) :
+    den .qubit R [wq] [xq] = melF h out s := by
+  obtain ⟨hnm, hst⟩ := checksum_structure n odd c hc
+  have hbits : ∀ (m : Nat), m < 2 ^ n → ∀ j, m.testBit j = ((occList m n).getD j 0 == 1) := by
+    intro m hm j
+    rw [occList_getD]
+    by_cases hj : j < n
+    · simp [hj]
+    · have : m.testBit j = false :=
+        Nat.testBit_lt_two_pow (Nat.lt_of_lt_of_le hm (Nat.pow_le_pow_right (by omega) (by omega)))
+      simp [hj, this]
+  exact bct_sound_encoded c h R (fun v => v.length = n ∧ (∀ x ∈ v, x ≤ 1) ∧ ((v.sum % 2 == 1) = odd))
+    hst.1 hst.2.1 hst.2.2
+    (fun v hv => ⟨by rw [hnm]; exact hv.1, hv.2.1, checksum_valid' n odd c hc v hv.1 hv.2.1 hv.2.2⟩)
+    (by rw [hnm]; exact hwf) (occList s n) (occList out n)
+    ⟨occList_length _ _, occList_le _ _, hps⟩ ⟨occList_length _ _, occList_le _ _, hpo⟩ wq xq s out hw hx
+    (hbits s hs) (hbits out ho)
+    (fun tc htc k s' hact => by rw [hnm]; exact ⟨occList_length _ _, occList_le _ _, hpres tc htc k s' hact⟩) hR
 
 end OFV.C09
